@@ -16,11 +16,66 @@ pub enum Op {
     Clock { s: i64, ns: i64 },
     Pid { pid: i64 },
     Frag { w: u64, seed: u64, n: u64 },
+    /// everything on the scenario's disk disappears (cleaned build dir, evicted cache, new machine)
+    FsWipe,
 }
 
 impl Op {
     pub fn is_perturbation(&self) -> bool {
-        matches!(self, Op::Clock { .. } | Op::Pid { .. } | Op::Frag { .. })
+        matches!(self, Op::Clock { .. } | Op::Pid { .. } | Op::Frag { .. } | Op::FsWipe)
+    }
+}
+
+/// The disk of one scenario: a directory that starts empty, is shared by the scenario's simulated
+/// processes (they are processes on one machine), and is removed afterwards.
+pub struct Sandbox {
+    pub dir: std::path::PathBuf,
+}
+
+impl Sandbox {
+    pub fn new() -> Sandbox {
+        use std::sync::atomic::{AtomicU64, Ordering};
+        static N: AtomicU64 = AtomicU64::new(0);
+        let root = std::env::var("VERIF_SANDBOX_ROOT").map(std::path::PathBuf::from).unwrap_or_else(|_| {
+            // <verif>/build/target-sim/release/educe-sim -> <verif>/build/sandbox
+            std::env::current_exe()
+                .ok()
+                .and_then(|e| e.parent().and_then(|p| p.parent()).and_then(|p| p.parent()).map(|p| p.join("sandbox")))
+                .unwrap_or_else(|| std::env::temp_dir().join("educe-sim-sandbox"))
+        });
+        let dir = root.join(format!("{}-{}", std::process::id(), N.fetch_add(1, Ordering::SeqCst)));
+        let _ = std::fs::remove_dir_all(&dir);
+        let _ = std::fs::create_dir_all(&dir);
+        Sandbox { dir }
+    }
+
+    pub fn wipe(&self) {
+        if let Ok(rd) = std::fs::read_dir(&self.dir) {
+            for e in rd.flatten() {
+                let p = e.path();
+                if p.is_dir() {
+                    // keep the directories processes may be standing in; drop their contents
+                    if let Ok(inner) = std::fs::read_dir(&p) {
+                        for i in inner.flatten() {
+                            let ip = i.path();
+                            if ip.is_dir() {
+                                let _ = std::fs::remove_dir_all(ip);
+                            } else {
+                                let _ = std::fs::remove_file(ip);
+                            }
+                        }
+                    }
+                } else {
+                    let _ = std::fs::remove_file(p);
+                }
+            }
+        }
+    }
+}
+
+impl Drop for Sandbox {
+    fn drop(&mut self) {
+        let _ = std::fs::remove_dir_all(&self.dir);
     }
 }
 
@@ -67,6 +122,7 @@ pub fn apply(p: &mut Proc, inputs: &[String], op: &Op) -> HResult<Option<(u64, S
         Op::Clock { s, ns } => p.set_clock(*s, *ns).map(|_| None),
         Op::Pid { pid } => p.set_pid(*pid).map(|_| None),
         Op::Frag { w, seed, n } => p.frag(*w, *seed, *n).map(|_| None),
+        Op::FsWipe => Ok(None), // scheduler-side: handled by the executor
     }
 }
 
@@ -78,9 +134,14 @@ pub struct Execution {
 pub fn execute(sc: &Scenario) -> HResult<Execution> {
     let mut obs = vec![];
     let mut stats = vec![];
+    let sandbox = Sandbox::new();
     for (wi, world) in sc.worlds.iter().enumerate() {
-        let mut p = Proc::start(&world.env)?;
+        let mut p = Proc::start(&world.env, Some(&sandbox.dir))?;
         for (oi, op) in world.ops.iter().enumerate() {
+            if matches!(op, Op::FsWipe) {
+                sandbox.wipe();
+                continue;
+            }
             if let Some((fp, out)) = apply(&mut p, &sc.inputs, op)? {
                 let Op::Expand { input, .. } = op else { unreachable!() };
                 obs.push(Obs { world: wi, op: oi, input: *input, keyfp: fp, outcome: out });
@@ -129,6 +190,7 @@ fn op_to_json(op: &Op) -> J {
             .set("w", J::i(*w))
             .set("seed", J::s(format!("{seed}")))
             .set("n", J::i(*n)),
+        Op::FsWipe => J::obj().set("op", J::s("fs_wipe")),
     }
 }
 
@@ -147,6 +209,7 @@ fn op_from_json(j: &J) -> Result<Op, String> {
         "expand" => Op::Expand { w: num("w")? as u64, input: num("input")? as usize },
         "clock" => Op::Clock { s: num("s")? as i64, ns: num("ns")? as i64 },
         "pid" => Op::Pid { pid: num("pid")? as i64 },
+        "fs_wipe" => Op::FsWipe,
         "frag" => Op::Frag { w: num("w")? as u64, seed: num("seed")? as u64, n: num("n")? as u64 },
         other => return Err(format!("unknown op {other}")),
     })
